@@ -299,6 +299,9 @@ pub enum Step {
     ForceOpen,
     ForceClosed,
     Reset,
+    /// a call through a second service built from the same layer (its own breaker: nothing
+    /// it does may show in the first one)
+    Other { err: bool },
 }
 
 #[derive(Clone, Debug, Serialize, Deserialize, PartialEq)]
@@ -392,6 +395,7 @@ pub fn gen4(rng: &mut Rng) -> Scn4 {
     let cfg = gen_cfg(rng, false);
     let n = rng.range(10, 80) as usize;
     let p_fail = *rng.pick(&[15u64, 40, 50, 60, 85]);
+    let siblings = rng.chance(1, 3);
     let mut steps = vec![];
     for _ in 0..n {
         let r = rng.below(100);
@@ -404,6 +408,8 @@ pub fn gen4(rng: &mut Rng) -> Scn4 {
                 err: if fail { Some(if rng.chance(1, 5) { 1 } else { 0 }) } else { None },
                 flag: !fail && rng.chance(1, 6),
             }
+        } else if r < 74 && siblings {
+            Step::Other { err: rng.chance(2, 3) }
         } else if r < 88 {
             Step::Advance(*rng.pick(&[5u64, 10, 20, 25, 30, 30, 50, 70, 100, 100, 150]))
         } else if r < 92 {
@@ -456,6 +462,9 @@ pub fn run4(s: &Scn4, ctx: &mut RunCtx) -> RunOutput {
                         vec![Behaviour { lat_ms: *lat_ms, out: match err { Some(k) => Outcome::Err(*k), None => Outcome::Ok }, yields: 0 }],
                     );
                 }
+                if let Step::Other { err } = st {
+                    w.script.by_req.insert((1, i as u32), vec![Behaviour { lat_ms: 0, out: if *err { Outcome::Err(0) } else { Outcome::Ok }, yields: 0 }]);
+                }
             }
         });
         let flagged: std::collections::HashSet<u32> = steps
@@ -469,7 +478,8 @@ pub fn run4(s: &Scn4, ctx: &mut RunCtx) -> RunOutput {
         let make: Box<dyn FnOnce() -> LocalFut> = if cfg.classifier == 0 {
             let layer = build_layer!(&cfg, b => b.build());
             let svc = layer.layer(SimInner::new(0));
-            Box::new(move || Box::pin(drive4(cfg, steps, svc, flagged)))
+            let svc_b = layer.layer(SimInner::new(1));
+            Box::new(move || Box::pin(drive4(cfg, steps, svc, svc_b, flagged)))
         } else {
             let fl = flagged.clone();
             let classify = move |r: &Result<Resp, SimErr>| match r {
@@ -482,7 +492,8 @@ pub fn run4(s: &Scn4, ctx: &mut RunCtx) -> RunOutput {
                 build_layer!(&cfg, b => b.failure_classifier(classify).build())
             };
             let svc = layer.layer(SimInner::new(0));
-            Box::new(move || Box::pin(drive4(cfg, steps, svc, flagged)))
+            let svc_b = layer.layer(SimInner::new(1));
+            Box::new(move || Box::pin(drive4(cfg, steps, svc, svc_b, flagged)))
         };
         vec![TaskDef { start_ms: 0, make, cancel: Cancel::Never }]
     };
@@ -511,6 +522,7 @@ async fn drive4<C>(
     cfg: Cfg,
     steps: Vec<Step>,
     mut svc: tower_resilience_circuitbreaker::CircuitBreaker<SimInner, C>,
+    mut svc_b: tower_resilience_circuitbreaker::CircuitBreaker<SimInner, C>,
     flagged: std::collections::HashSet<u32>,
 ) -> Out
 where
@@ -583,6 +595,13 @@ where
             }
             Step::Advance(d) => {
                 tokio::time::sleep(Duration::from_millis(*d)).await;
+            }
+            Step::Other { .. } => {
+                world::probe("call_through_sibling_service");
+                let _ = match svc_b.ready().await {
+                    Ok(s) => s.call(Req { id: i as u32, key: 0 }).await,
+                    Err(e) => Err(e),
+                };
             }
             Step::ForceOpen => {
                 svc.force_open().await;
